@@ -107,3 +107,123 @@ theorem list_beq_refl : ∀ (a : List XNode), (a == a) = true
     simp [List.beq, hx, this]
 
 end Xsw
+
+/-! ### ID registration resolves an element with the registered name to its own path -/
+namespace Xsw
+
+theorem mem_preorder_self (n : XNode) (p : Path) : p ∈ preorder n p := by
+  cases n <;> simp [preorder]
+
+theorem preorderL_of_getElem? (ks : List XNode) (p : Path) (i k : Nat) (c : XNode) (x : Path)
+    (hc : ks[i]? = some c) (hx : x ∈ preorder c (p ++ [k + i])) : x ∈ preorderL ks p k := by
+  induction ks generalizing i k with
+  | nil => simp at hc
+  | cons y ys ih =>
+    rw [preorderL]
+    cases i with
+    | zero =>
+      simp only [List.getElem?_cons_zero, Option.some.injEq] at hc
+      subst hc
+      exact List.mem_append_left _ (by simpa using hx)
+    | succ i =>
+      simp only [List.getElem?_cons_succ] at hc
+      refine List.mem_append_right _ (ih i (k + 1) hc ?_)
+      have : k + 1 + i = k + (i + 1) := by omega
+      rw [this]; exact hx
+
+/-- every node reachable by a path is listed by the document-order traversal -/
+theorem mem_preorder_of_nodeAt (n m : XNode) (p q : Path) (h : nodeAt n q = some m) :
+    p ++ q ∈ preorder n p := by
+  induction q generalizing n p with
+  | nil => simpa using mem_preorder_self n p
+  | cons i rest ih =>
+    simp only [nodeAt] at h
+    cases n with
+    | elem t a ks =>
+      simp only [XNode.kids] at h
+      cases hc : ks[i]? with
+      | none => simp [hc] at h
+      | some c =>
+        rw [hc] at h
+        simp only at h
+        rw [preorder]
+        refine List.mem_cons_of_mem _ (preorderL_of_getElem? ks p i 0 c _ hc ?_)
+        have := ih c (p ++ [i]) h
+        simpa using this
+    | text s => simp [XNode.kids] at h
+    | digest x => simp [XNode.kids] at h
+    | sigval k x => simp [XNode.kids] at h
+    | junk s => simp [XNode.kids] at h
+
+theorem eraseDups_length_le {α} [BEq α] (l : List α) : l.eraseDups.length ≤ l.length := by
+  generalize hn : l.length = n
+  induction n using Nat.strongRecOn generalizing l with
+  | _ n ih =>
+    cases l with
+    | nil => simp
+    | cons a as =>
+      rw [List.eraseDups_cons]
+      simp only [List.length_cons] at hn ⊢
+      have h1 : (as.filter fun b => !b == a).length ≤ as.length := List.length_filter_le _ _
+      have := ih _ (by omega) (as.filter fun b => !b == a) rfl
+      omega
+
+/-- the duplicate test of `registerIds` passes only on a list without repetitions -/
+theorem nodup_of_eraseDups_length {α} [BEq α] [LawfulBEq α] (l : List α)
+    (h : l.eraseDups.length = l.length) : l.Nodup := by
+  induction l with
+  | nil => exact List.Pairwise.nil
+  | cons a as ih =>
+    rw [List.eraseDups_cons] at h
+    simp only [List.length_cons, Nat.add_right_cancel_iff] at h
+    have h1 : (as.filter fun b => !b == a).length ≤ as.length := List.length_filter_le _ _
+    have h2 := eraseDups_length_le (as.filter fun b => !b == a)
+    have hlen : (as.filter fun b => !b == a).length = as.length := by omega
+    have hfil : as.filter (fun b => !b == a) = as := List.length_filter_eq_length_iff.mp hlen |> List.filter_eq_self.mpr
+    rw [hfil] at h
+    refine List.Pairwise.cons ?_ (ih h)
+    intro b hb hab
+    have := List.length_filter_eq_length_iff.mp hlen b hb
+    simp [hab] at this
+
+theorem lookup_of_mem_of_nodup (l : List (String × Path)) (k : String) (v : Path)
+    (hnd : (l.map (·.1)).Nodup) (hmem : (k, v) ∈ l) : l.lookup k = some v := by
+  induction l with
+  | nil => simp at hmem
+  | cons e rest ih =>
+    obtain ⟨k', v'⟩ := e
+    simp only [List.map_cons, List.nodup_cons] at hnd
+    simp only [List.lookup]
+    rcases List.mem_cons.mp hmem with heq | hin
+    · cases heq
+      simp
+    · have hne : k ≠ k' := by
+        intro hh; subst hh
+        exact hnd.1 (List.mem_map.mpr ⟨(k, v), hin, rfl⟩)
+      have : (k == k') = false := by simpa using hne
+      rw [this]
+      exact ih hnd.2 hin
+
+/-- `--id-attr:ID nodeName` registers the ID of every element with that name under its own path, and
+    (because a repeated value is an error) that ID resolves to that path and no other. -/
+theorem registerIds_resolves (doc item : XNode) (itemPath : Path) (nodeName : String)
+    (ids : List (String × Path)) (id : String)
+    (hitem : nodeAt doc itemPath = some item) (htag : item.tag = nodeName)
+    (hid : item.attr "ID" = some id) (hreg : registerIds doc nodeName = some ids) :
+    ids.lookup id = some itemPath := by
+  unfold registerIds at hreg
+  simp only at hreg
+  split at hreg
+  · rename_i hlen
+    simp only [Option.some.injEq] at hreg
+    subst hreg
+    have hlen' := eq_of_beq hlen
+    refine lookup_of_mem_of_nodup _ _ _ (nodup_of_eraseDups_length _ ?_) ?_
+    · rw [List.length_map]; exact hlen'
+    apply List.mem_filterMap.mpr
+    refine ⟨itemPath, ?_, ?_⟩
+    · simpa using mem_preorder_of_nodeAt doc item [] itemPath hitem
+    · simp [hitem, htag, hid]
+  · cases hreg
+
+end Xsw
